@@ -1,7 +1,11 @@
 /- Driver handlers for the C12 correspondence streams (record ranges of worker goroutines, slot bookkeeping). -/
 import Csvq.Gen.RecordRange
 import Csvq.Model.Slots
+import Csvq.Model.Pipeline
+import Csvq.Model.ParseTimeUser
+import Csvq.Model.Proto
 namespace Csvq.Drive
+open Csvq Csvq.Proto
 
 /-- GoroutineManager.AssignRoutineNumber (regenerated) with no other goroutines borrowed (Count = 0) -/
 def assignNumber (recordLen minReq cpu : Int) : Int :=
@@ -28,6 +32,54 @@ def slotsRun : Csvq.Slots.St → List String → Option (List String)
         | .done _ => toString s'.count
       (slotsRun s' rest).map (out :: ·)
 
+/-! ### `c12.pipe`: a stage list over the table id = 0 … n-1, k = (id·a + b) % m, through Pipeline.runImpl -/
+
+abbrev PRow := Nat × Nat
+
+def leKId (x y : PRow) : Bool := x.2 < y.2 || (x.2 == y.2 && x.1 ≤ y.1)
+
+/-- one token of the harness (harness/cmd/c12/stages.go) as stages of Model/Pipeline -/
+def pipeStage (tok : String) : Option (List (Pipeline.Stage PRow Nat)) :=
+  match tok.splitOn ":" with
+  | ["w", a, b] =>
+    match a.toNat?, b.toNat? with
+    | some a, some b => some [.filter fun r => r.1 % a != b]
+    | _, _ => none
+  | ["g", a] => a.toNat?.map fun a => [.eval (fun r => (r.1 % a, 0)), .group (·.1) (fun key rs => (key, rs.length))]
+  | ["h", a] => a.toNat?.map fun a => [.filter fun r => decide (r.2 > a)]
+  | ["d"] => some [.eval (fun r => (r.2, r.2)), .seq fun l => (keepFirst (l.map fun r => (r.2, r))).map Prod.snd]
+  | ["z"] => some [.eval fun r => (0, r.2)]
+  | ["sk"] => some [.seq fun l => l.mergeSort leKId]
+  | ["st"] => some [.seq fun l => l.mergeSort leKId]
+  | ["sd"] => some [.seq fun l => l.mergeSort fun x y => decide (x.1 ≥ y.1)]
+  | ["o", a] => a.toNat?.map fun a => [Pipeline.offsetStage a]
+  | ["l", a] => a.toNat?.map fun a => [Pipeline.limitStage a]
+  | ["lp", a, b] =>
+    match a.toNat?, b.toNat? with
+    | some a, some b => some [Pipeline.limitPercentStage a b]
+    | _, _ => none
+  | ["lt", a, _] => a.toNat?.map fun a => [Pipeline.limitTiesStage (·.2) a]
+  | _ => none
+
+def pipeStages : List String → Option (List (Pipeline.Stage PRow Nat))
+  | [] => some []
+  | t :: ts =>
+    match pipeStage t, pipeStages ts with
+    | some a, some b => some (a ++ b)
+    | _, _ => none
+
+def pipeHash (rows : List PRow) : Nat :=
+  rows.foldl (fun h r => (h * 1000003 + r.1 * 131 + r.2 + 1) % 2305843009213693951) 0
+
+def pipeDigest (rows : List PRow) : String :=
+  let n := rows.length
+  let ends := rows.zipIdx.filterMap fun ri => if ri.2 < 3 || ri.2 + 3 ≥ n then some s!"{ri.1.1}/{ri.1.2}" else none
+  s!"{n} {pipeHash rows} {String.intercalate "," ends}"
+
+/-- the stages are cut differently from stage to stage (the result does not depend on it: pipeline_eq_spec) -/
+def pipeCuts (n : Nat) (i : Nat) : Pipeline.Cut :=
+  if i % 3 = 0 then Pipeline.Cut.every (n / 7) else if i % 3 = 1 then Pipeline.Cut.at (n / 3) else Pipeline.Cut.one
+
 def c12 (cmd : String) (args : List String) : String :=
   match cmd, args with
   | "number", [l, m, c] =>
@@ -45,6 +97,19 @@ def c12 (cmd : String) (args : List String) : String :=
     match slotsRun Csvq.Slots.init toks with
     | some outs => String.intercalate " " outs
     | none => "bad-op"
+  | "pipe", n :: a :: b :: m :: toks =>
+    match n.toNat?, a.toNat?, b.toNat?, m.toNat?, pipeStages toks with
+    | some n, some a, some b, some m, some stages =>
+      let rows : List PRow := (List.range n).map fun i => (i, (i * a + b) % m)
+      pipeDigest (Pipeline.runImpl (pipeCuts n) 0 stages rows)
+    | _, _, _, _, _ => "bad-op"
+  | "strtotime", [fs, h] =>
+    -- value.StrToTime(text, formats, UTC): formats as comma-separated hex strings (`-` = none)
+    let fmts : Option (List Bytes) := if fs = "-" then some [] else (fs.splitOn ",").mapM parseHexX
+    match fmts, parseHexX h with
+    | some fmts, some b =>
+      if fmts.all PT.supportedFormat then showOpt toString (PT.strToTimeUser fmts b) else "unmodelled-format"
+    | _, _ => "bad-op"
   | "setcpu", [i, n] =>
     match i.toInt?, n.toInt? with
     | some i, some n => toString (Csvq.Gen.setCPU i n 0)
